@@ -60,8 +60,8 @@ m("C06", "extend-no-precheck-of-argument-names", "odml/base.py",
   "            if sec.name in self._sections or sec.name in new_names:\n",
   "            if sec.name in self._sections:\n")
 m("C06", "values-cleared-before-validation", "odml/property.py",
-  "        new_value = self._convert_value_input(new_value)\n\n        old_dtype = self._dtype\n",
-  "        new_value = self._convert_value_input(new_value)\n        self._values = []\n\n        old_dtype = self._dtype\n")
+  "            self._values = []\n            return\n\n        old_dtype = self._dtype\n",
+  "            self._values = []\n            return\n\n        self._values = []\n        old_dtype = self._dtype\n")
 m("C06", "merge-check-after-attributes", "odml/section.py",
   "        self.merge_check(section, strict)\n\n        # Remember which attributes are taken over, unmerge has to reset them.\n        merged_attrs = []\n        if self.definition is None and section.definition is not None:\n            self.definition = section.definition\n",
   "        # Remember which attributes are taken over, unmerge has to reset them.\n        merged_attrs = []\n        if self.definition is None and section.definition is not None:\n            self.definition = section.definition\n        self.merge_check(section, strict)\n\n")
